@@ -557,11 +557,25 @@ class _LoopTooLong(Exception):
 
 def check_run_loop(events: List[int], shut_at: int, pending_left: List[int]) -> bool:
     """
-    pre: 1 <= len(events) <= 4 and len(pending_left) == len(events)
+    pre: 1 <= len(events) <= 3 and len(pending_left) == len(events)
+    pre: all(0 <= e <= 2 for e in events) and all(0 <= p <= 1 for p in pending_left)
+    pre: 0 <= shut_at <= 3
+    post: _
+    """
+    return _run_loop(events, shut_at, pending_left)
+
+
+def check_run_loop_4(events: List[int], shut_at: int, pending_left: List[int]) -> bool:
+    """
+    pre: len(events) == 4 and len(pending_left) == 4
     pre: all(0 <= e <= 2 for e in events) and all(0 <= p <= 1 for p in pending_left)
     pre: 0 <= shut_at <= 4
     post: _
     """
+    return _run_loop(events, shut_at, pending_left)
+
+
+def _run_loop(events, shut_at, pending_left):
     # the real _ExecutorManagerThread.run against a scripted environment: turn i of the loop sees event
     # events[i] (0 wake-up only, 1 a result item, 2 broken pool); from turn `shut_at` on is_shutting_down() is true;
     # pending_left[i] says whether work items remain after turn i.  Protocol of one turn (what C01/C02/C05 rest on):
